@@ -391,4 +391,20 @@ Proof.
   intros k. rewrite B. clear. unfold ops. generalize (stored (fst s)). induction segs as [|sg t IH]; intros m; cbn [map spec_hist spec]; [reflexivity|apply IH].
 Qed.
 
+(* loosen_object(k): the content read back for k is added as a loose object - an OAdd whose map update is the identity *)
+Lemma loosen_is_identity (m : key -> option bytes) n chunks : m (H (concat chunks)) = Some (concat chunks) ->
+  forall k, spec m (OAdd n chunks) k = m k.
+Proof. clear H_inj. intros Hm k. cbn [spec]. destruct (N.eqb_spec k (H (concat chunks))) as [->|_]; [symmetry; exact Hm|reflexivity]. Qed.
+
+Theorem loosen_changes_no_view s n chunks k0 :
+  Inv (fst s) -> pending (snd s) = [] -> stored (fst s) k0 = Some (concat chunks) ->
+  let s' := run_events s (p_add_loose H (fst s) n chunks) in
+  Inv (fst s') /\ forall k, stored (fst s') k = stored (fst s) k.
+Proof.
+  intros HI Hp Hs. cbn zeta.
+  destruct (step_refines s (OAdd n chunks) HI Hp I) as (I' & _ & S'). cbn [prog] in *. split; [exact I'|].
+  intros k. rewrite S'. apply loosen_is_identity.
+  assert (Hk : H (concat chunks) = k0) by exact (stored_sound H inflate (fst s) k0 _ HI Hs). rewrite Hk. exact Hs.
+Qed.
+
 End Hist.
